@@ -5,10 +5,10 @@ fn main() {
     let mut ctx = Ctx::init("C12");
     ctx.rule(
         "Cases are operation histories over three Bitset<N> registers (set, remove, flip, clear, new/default, from_u64, complement, \
-         &,|,^ in reference form, &=,|=,^=, clone) for N in {1,2,3,4,7,10,16} and, with fewer and shorter histories, N in {130, 1030} (8320 and 65920 bits), with index selectors biased to word boundaries \
+         &,|,^ in reference form, &=,|=,^=, clone, clear repeated 65535..196608 times) for N in {1,2,3,4,7,10,16} and, with fewer and shorter histories, N in {130, 1030} (8320 and 65920 bits), with index selectors biased to word boundaries \
          (0, 63, 64, 65, 127, 128, 64N-1), interpreted against BTreeSet<usize> models. After every op: iter_bits (strictly ascending, \
          equal to the set), count, test on boundary and touched indices, == between all register pairs <=> set equality; Display and \
-         Debug rendering (index 0 first) every 8 ops and at the end. Non-trivial = N>1 and an element at a word-boundary index \
+         Debug rendering (index 0 first) every 8 ops and at the end. Every history is interpreted a second time without the intermediate observations (count, complement count, ==, iteration, Display only at the end), because an observation may warm up or repair lazily maintained state. Non-trivial = N>1 and an element at a word-boundary index \
          (i%64 in {63,0}) is present when a binary operator or the iterator runs. Distinct = distinct (sub-check, case).",
     );
     ctx.replayer("bitset-history", |v| run_case(&serde_json::from_value::<Case>(v.clone()).expect("case")));
@@ -20,5 +20,18 @@ fn main() {
     for cap in 7..9u8 {
         ctx.prop(&format!("histories-N{}", CAPS[cap as usize]), "bitset-history", ctx.n(150, 4_000), case(Some(cap), 24), run_case);
     }
+    // counters that wrap: elements set, then clear() 65535 .. 196608 times on the same object, then observed (with and without a
+    // write to another word in between)
+    let mut many = Vec::new();
+    for cap in [0u8, 1, 3, 6, 7] {
+        for k in 0..6u8 {
+            for (a, b) in [(1u16, 3u16), (127, 257), (2 * 70 + 1, 2 * 5)] {
+                many.push(Case { cap, ops: vec![Op::Set { r: 0, x: a }, Op::Set { r: 0, x: b }, Op::ClearMany { r: 0, k }] });
+                many.push(Case { cap, ops: vec![Op::Set { r: 0, x: a }, Op::Set { r: 0, x: b }, Op::ClearMany { r: 0, k }, Op::Set { r: 0, x: b }, Op::Clone { dst: 1, src: 0 }] });
+                many.push(Case { cap, ops: vec![Op::FromU64 { r: 1, w: u64::MAX }, Op::Set { r: 1, x: a }, Op::ClearMany { r: 1, k: 0 }, Op::Clear { r: 1 }, Op::Bin { dst: 2, a: 1, b: 0, op: 1 }] });
+            }
+        }
+    }
+    ctx.exhaustive("clear-repeated-many-times", "bitset-history", "N in {1,2,4,16,130} x {65535, 65536, 65537, 131071, 131072, 196608} clears after setting elements in one or two words", false, many, run_case);
     ctx.finish();
 }
